@@ -159,10 +159,32 @@ def main(argv=None):
     if vac['vacuous_contracts']:
         errors.append({'key': 'vacuity', 'error': 'vacuous: ' + '; '.join(vac['vacuous_contracts'][:5])})
 
+    standin = None
     if errors:
         for r in errors[:10]:
             lines.append('CHECKER-ERROR %s: %s' % (r['key'], str(r['error']).split('\n')[0]))
         exit_code = 3
+        # A function that cannot be brought within the verifier's reach (construct
+        # outside the subset, contract that no longer translates): the native
+        # bounded search of the property stands in, labelled bounded.  It can only
+        # turn the checker error into a replayed VIOLATION, never into a pass.
+        structural = [r for r in errors if any(t in str(r['error']) for t in
+                                               ('out-of-subset', 'spec-error', 'front-error'))]
+        if structural and entry.get('replay'):
+            ob0 = {'name': 'bounded-standin[%s]' % structural[0]['key'], 'kind': 'bounded',
+                   'role': 'prop', 'result': 'unknown', 'contract': structural[0]['key']}
+            skip = [f.get('witness_signature') for f in known if f.get('status', 'open') == 'open'
+                    and f.get('witness_signature')]
+            out = native(entry['replay'], {'mode': 'search', 'property': pid, 'obligation': ob0,
+                                           'seed': seed, 'tier': tier, 'skip_signatures': skip})
+            standin = {'function': structural[0]['key'], 'reason': str(structural[0]['error'])[:200],
+                       'kind': 'native bounded search of the property oracle',
+                       'status': out.get('status'), 'tried': out.get('tried')}
+            if out.get('status') == 'reproduced':
+                path = write_replay(pid, ob0, out)
+                lines.append('VIOLATION property=%s replay=%s' % (pid, path))
+                violations += 1
+                exit_code = 1
 
     # ---- failed obligations: replay / search / verdict
     replay_mod = entry.get('replay')
@@ -249,6 +271,16 @@ def main(argv=None):
             if exit_code == 0:
                 exit_code = 2
 
+    # findings the contracts cannot express (stated in DESIGN.md): their recorded
+    # witness is re-run natively; still failing -> KNOWN-FINDING line, exit code unchanged
+    for f in known_pid:
+        if f.get('native_only') and replay_mod:
+            out = native(replay_mod, {'mode': 'search', 'property': pid, 'obligation': {},
+                                      'seed': seed, 'tier': tier,
+                                      'want_signature': f.get('witness_signature')})
+            if out.get('status') == 'reproduced':
+                lines.append('KNOWN-FINDING: property=%s %s %s' % (pid, f.get('obligation'), f.get('what', '')))
+                known_hit.append(f.get('obligation'))
     if not_investigated:
         lines.append('NOTE property=%s %d more refuted obligation groups not replayed in this run '
                      '(replay budget %d); listed in the evidence' % (pid, not_investigated, MAX_REPLAYS))
@@ -327,7 +359,7 @@ def main(argv=None):
         'slowest': sorted(({'obligation': o['name'], 'seconds': o['seconds']} for o in obs),
                           key=lambda x: -x['seconds'])[:5],
         'vacuity': vac,
-        'bounded_standins': bounded,
+        'bounded_standins': bounded + ([standin] if standin else []),
         'known_findings_matched': known_hit,
         'undecided': [o['name'] for o in undecided],
         'replays': replays,
